@@ -2,10 +2,14 @@
   Model driver for C06.
   `CHECK <id> chk_* <clause-prefix> <rule> <mode> <delta> <nE> … <nT> …` : the slab checker applied to
   the real stroke tessellator's triangles against a region built by the harness (covers / within).
+  `fullmesh tol width miter_limit join cap1 cap2 closed n (x y)*` : the whole mesh of a polyline through the
+  COMPLETE stroker model (`Model/Tess/StrokeFull.lean`, `tessellateFw`) — the model the theorems of
+  `Props/C06b.lean` are about: emitted vertex positions in order, triangle ids.
 -/
 import LyonVerif.Drive.Common
 import LyonVerif.Drive.SlabIO
 import LyonVerif.Model.Tess.StrokeQuad
+import LyonVerif.Model.Tess.StrokeFull
 
 namespace Lyon.Drive.C06
 open Lyon Lyon.Drive
@@ -46,7 +50,33 @@ def hStroke2 [IxVia α] (v : Array String) : String :=
   unwords (["ok", toString m.verts.length, toString m.tris.length, "v"] ++ m.verts.map fp ++ ["t"] ++ m.tris.map showTri)
 end
 
+section FullMesh
+open Lyon.Stroke.Full
+variable {α : Type} [Scalar α] [Transc α] [Wire α]
+
+def rdPtsN (v : Array String) : Nat → Nat → List (P α)
+  | 0, _ => []
+  | n+1, i => rdP v i :: rdPtsN v n (i + 2)
+
+/-- `begin p0, line_to p1, …, end(closed)` -/
+def polyEvents (pts : List (P α)) (closed : Bool) : List (PathEv α) :=
+  match pts with
+  | [] => []
+  | p :: r => PathEv.begin p :: r.map PathEv.line ++ [PathEv.end_ closed]
+
+def hFullMesh [HasIx α] [Asin α] [FlatConst α] (v : Array String) : String :=
+  let o : Opts α := ⟨rd v 0, rd v 1, rd v 2, joinOf (v.getD 3 ""), capOf (v.getD 4 ""), capOf (v.getD 5 ""), false, 0⟩
+  let closed := rdNat v 6 == 1
+  let pts : List (P α) := rdPtsN v (rdNat v 7) 8
+  match tessellateFw (Env.new o HasIx.ix) (polyEvents pts closed) with
+  | some out =>
+    unwords (["ok", toString out.verts.length, toString out.tris.length, "v"]
+      ++ out.verts.map (fun d => fp d.read.position) ++ ["t"] ++ out.tris.map showTri)
+  | none => "panic"
+end FullMesh
+
 def families : List Family := [
+  ⟨"fullmesh", hFullMesh (α := Float32), hFullMesh (α := Float)⟩,
   ⟨"normal", hNormal (α := Float32), hNormal (α := Float)⟩,
   ⟨"stroke2", hStroke2 (α := Float32), hStroke2 (α := Float)⟩,
   Family.plain "chk_cover" chk,
